@@ -272,4 +272,9 @@ def search_l1800(deadline, rng):
                     'expected': 'accepted (every loop is final in its block, every branch is a goto, a block or an else-if) with exactly %d lint(s) L1800: '
                                 'one per braced branch whose first statement is loop, and nothing else raises it' % exp,
                     'expect_l1800': exp, 'programs_tried': tried}
+        # ... and what is handed to the generator keeps the placement: in the RESOLVED tree every loop is still the last statement of a block
+        if res.get('misplaced_loops', '0') != '0':
+            return {'mode': 'alpha', 'input_utf8_lossy': src, 'input_hex': src.encode().hex(), 'observed': res,
+                    'expected': 'the resolved tree of this accepted program has every `loop` as the last statement of a block (the generator relies on it); %s loop(s) are not' % res.get('misplaced_loops'),
+                    'expect_result': {'misplaced_loops': '0'}, 'programs_tried': tried}
     return None
